@@ -22,6 +22,7 @@ func init() {
 		ruleR07b(c)
 		ruleStoreLookupScoped(c, "R07c", "Store.ReadLogWithIdempotencyKey", "idempotency_key")
 		ruleVerbatimField(c, "R07d", "IdempotencyKey", 3)
+		ruleExactLookup(c, "R07e", c.IfaceMethod(pkgCommand, "Store", "ReadLogWithIdempotencyKey"), "IdempotencyKey", "idempotency_key")
 	})
 	register("C11", propMeta{
 		Level: "other",
@@ -32,6 +33,7 @@ func init() {
 		ruleR11a(c)
 		ruleStoreLookupScoped(c, "R11b", "Store.GetTransactionByReference", "reference")
 		ruleVerbatimField(c, "R11c", "Reference", 3)
+		ruleExactLookup(c, "R11d", c.IfaceMethod(pkgCommand, "Store", "GetTransactionByReference"), "Reference", "reference")
 	})
 	register("C10", propMeta{
 		Level: "other",
